@@ -46,7 +46,7 @@ type FuncReport struct {
 
 func (e *Engine) newCtx(fn *ssa.Function, fc *FuncContract, mode string) *FnCtx {
 	c := &FnCtx{eng: e, fn: fn, fc: fc, mode: mode, declared: map[string]bool{}, heapSort: map[string]string{},
-		notes: map[string]bool{}, inlined: map[string]bool{}, trusted: map[string]bool{}, defaults: map[string]bool{}}
+		divw: map[string]string{}, notes: map[string]bool{}, inlined: map[string]bool{}, trusted: map[string]bool{}, defaults: map[string]bool{}}
 	c.label = pkgShort(fn.Pkg.Pkg) + "." + relName(fn)
 	return c
 }
@@ -106,7 +106,7 @@ func (e *Engine) VerifyFunc(fn *ssa.Function, mode string) *FuncReport {
 	c.derefFreeVarsEntry(p, fn, env)
 	c.globalAxioms(p)
 	p.now = c.fresh("now_entry", "Int")
-	p.assume("(>= " + p.now + " 0)")
+	p.assume("(and (>= " + p.now + " 0) (<= " + p.now + " 4611686018427387904))")
 	entryNow := p.now
 	pkg := fn.Pkg.Pkg
 	if fc != nil {
@@ -144,6 +144,9 @@ func (e *Engine) VerifyFunc(fn *ssa.Function, mode string) *FuncReport {
 			if fc != nil {
 				ec := &EvalCtx{c: c, p: q, env: env, heap: &q.heap, old: &entryHeap, oldNow: entryNow, pkg: pkg, ghostOld: ghostEntry}
 				for i, cl := range fc.EnsuresP {
+					if cl.Seq && mode != "seq" {
+						continue
+					}
 					t, _ := c.evalClause(ec, cl, "ensures_panic of "+c.label)
 					c.oblige(q, "post_panic", clauseLabel(cl, i, "ensures_panic"), t, cl.Src, props)
 				}
@@ -253,6 +256,26 @@ func (c *FnCtx) runGhost(p *Path, fc *FuncContract, at string, env map[string]Va
 	}
 }
 
+// runGhostAt: ghost statements attached to a program point of the function under verification
+// ("after:<callee>" or "release:<mutex field>"). Names are the source variables visible on the path.
+func (c *FnCtx) runGhostAt(p *Path, at string) {
+	fr := p.frames[0]
+	if fr.fc == nil || len(p.frames) != 1 {
+		return
+	}
+	has := false
+	for _, g := range fr.fc.Ghost {
+		if g.At == at {
+			has = true
+		}
+	}
+	if !has {
+		return
+	}
+	env := c.frameEnv(p, fr, nil)
+	c.runGhost(p, fr.fc, at, env, nil)
+}
+
 func (c *FnCtx) ghostAssign(p *Path, ec *EvalCtx, lhs Expr, rhs Val, cond string) {
 	switch l := lhs.(type) {
 	case EIdent:
@@ -286,6 +309,9 @@ func (c *FnCtx) ghostAssign(p *Path, ec *EvalCtx, lhs Expr, rhs Val, cond string
 		if key != "" {
 			arr := c.heapGet(&p.heap, key, srt)
 			nv := rhs.T
+			if rhs.K == KIface {
+				nv = rhs.IVal
+			}
 			if cond != "true" {
 				nv = fmt.Sprintf("(ite %s %s (select %s %s))", cond, rhs.T, arr, ref)
 			}
@@ -330,6 +356,9 @@ func (c *FnCtx) exitChecks(p *Path, fc *FuncContract, env map[string]Val, entry 
 		isMutex := c.eng.isMutexKey(k)
 		if fc == nil && !isMutex {
 			continue
+		}
+		if c.mode == "mon" && !isMutex {
+			continue // under interference guarded fields change anyway; frames are a seq-mode notion
 		}
 		if all && !isMutex {
 			continue
